@@ -4,7 +4,7 @@ from __future__ import annotations
 from ..core import Report
 from ..model import DIST, TRANSFORMED, Program
 from ..refs import eval_ref_function, eval_ref_method
-from ..terms import C, Interp, find_unknown, has_unknown, show, walk
+from ..terms import C, Interp, find_unknown, has_unknown, same, show, walk
 from .bij import SELF, method_site
 from .c07 import compare
 from .merge import rule_merge_transforms
@@ -48,6 +48,9 @@ def run(prog: Program, rep: Report, tier: str):
     from .c06 import rule_public_lift
     rule_public_lift(prog, rep, "C03.public")
     rule_factories(prog, rep)
+    from .c14 import rule_cast
+    rule_cast(prog, rep, "C03.cast")   # dtype=float of the log_prob input is honoured
+    rule_factory_condition(prog, rep)
     rule_flow_bijections(prog, rep, "C03")
     rule_numpyro(prog, rep)
     if tier == "thorough":
@@ -133,6 +136,130 @@ def rule_factories(prog, rep):
         rep.check(good, "C03.factory", site, name,
                   "Transformed(base_dist, Invert(Scan(layers)) if invert else Scan(layers))",
                   f"returns {show(t, 300)}")
+
+
+LAYER_CLASSES = {
+    "coupling_flow": "flowjax.bijections.coupling.Coupling",
+    "masked_autoregressive_flow": "flowjax.bijections.masked_autoregressive.MaskedAutoregressive",
+    "block_neural_autoregressive_flow": "flowjax.bijections.block_autoregressive_network.BlockAutoregressiveNetwork",
+    "planar_flow": "flowjax.bijections.planar.Planar",
+}
+
+
+def factory_term(prog, name):
+    m = prog.modules.get("flowjax.flows")
+    fn = m.functions[name]
+    kwargs = {a.arg: ("sym", a.arg.upper()) for a in fn.args.kwonlyargs}
+    it = Interp(prog, no_inline={"flowjax.flows._add_default_permute", "flowjax.flows._affine_with_min_scale"})
+    return m, fn, it.eval_function(f"flowjax.flows.{name}", [("sym", "KEY")], kwargs)
+
+
+def rule_factory_condition(prog, rep, R="C03.factory-cond"):
+    """'Every premade flow ... conditional or not': the factory's cond_dim is what makes the flow conditional - it must
+    reach every layer (a factory that drops it silently builds an unconditional flow: cond_shape None, the condition
+    passed to log_prob / sample is ignored, and the tests - which read cond_shape off the flow - still pass), and the
+    layers are built for the base distribution's dimension."""
+    from ..terms import walk
+    rep.rule(R, "each flow factory builds its layers for dim = base_dist.shape[-1] and hands its cond_dim to the layer "
+                "constructor (triangular_spline_flow: appends AdditiveCondition(Linear(cond_dim, dim), (dim,), (cond_dim,)) "
+                "exactly when cond_dim is not None)", minimum=5)
+    CD, DIM = ("sym", "COND_DIM"), ("sub", ("attr", ("sym", "BASE_DIST"), "shape"), ("const", -1))
+    if prog.modules.get("flowjax.flows") is None:
+        rep.undecided(R, "-", "flows", "module flowjax.flows vanished")
+        return
+    for name, q in LAYER_CLASSES.items():
+        try:
+            m, fn, t = factory_term(prog, name)
+        except KeyError:
+            rep.undecided(R, "flowjax/flows.py", name, "factory vanished")
+            continue
+        site = f"{m.relpath}:{fn.lineno}"
+        calls = [x for x in walk(t) if x[0] == "call" and x[1] == ("ext", q)]
+        if not calls:
+            rep.undecided(R, site, name, f"no {q.split('.')[-1]}(...) in the returned flow")
+            continue
+        for c in calls[:1]:
+            kw = dict(c[3])
+            rep.check(kw.get("cond_dim") == CD and same(kw.get("dim"), DIM), R, site, name,
+                      "layer(dim=base_dist.shape[-1], cond_dim=cond_dim, ...)",
+                      f"the layer is built with dim={show(kw.get('dim'), 60) if kw.get('dim') else 'missing'}, "
+                      f"cond_dim={show(kw.get('cond_dim'), 60) if kw.get('cond_dim') else 'not passed (default None)'}: the flow "
+                      f"ignores the requested condition dimension")
+    # triangular_spline_flow
+    try:
+        m, fn, t = factory_term(prog, "triangular_spline_flow")
+    except KeyError:
+        rep.undecided(R, "flowjax/flows.py", "triangular_spline_flow", "factory vanished")
+        return
+    site = f"{m.relpath}:{fn.lineno}"
+    AC = ("ext", "flowjax.bijections.affine.AdditiveCondition")
+    ites = [x for x in walk(t) if x[0] == "ite" and any(y[0] == "call" and y[1] == AC for y in walk(x))]
+    ok, why = False, "no branch on cond_dim that adds an AdditiveCondition"
+    for x in ites:
+        test, a, b = x[1], x[2], x[3]
+        is_none = test == ("cmp", "is", CD, ("const", None)) or test == ("is", CD, ("const", None))
+        has_a = any(y[0] == "call" and y[1] == AC for y in walk(a))
+        has_b = any(y[0] == "call" and y[1] == AC for y in walk(b))
+        if has_a == has_b:
+            continue
+        cond_branch = b if has_b else a
+        # the conditional branch must be the `cond_dim is not None` side
+        from ..terms import mk_not
+        want_test_none_side = a if has_b else b
+        none_ok = (is_none and has_b) or (test == mk_not(("cmp", "is", CD, ("const", None))) and has_a) or \
+                  (test[0] == "cmp" and test[1] in ("is not", "isnot") and test[2] == CD and has_a) or \
+                  (test == CD and has_a)   # `if cond_dim:` differs only for cond_dim == 0, a condition with no entries
+        acs = [y for y in walk(cond_branch) if y[0] == "call" and y[1] == AC]
+        akw = dict(acs[0][3])
+        lin = [y for y in walk(akw.get("module", ("none",))) if y[0] == "call" and y[1][0] == "ext" and y[1][1].endswith("Linear")]
+        lkw = dict(lin[0][3]) if lin else {}
+        if lin:
+            for nm, v in zip(("in_features", "out_features"), lin[0][2]):
+                lkw.setdefault(nm, v)
+        shapes_ok = akw.get("shape") == ("tuple", (DIM,)) and akw.get("cond_shape") == ("tuple", (CD,))
+        lin_ok = bool(lin) and lkw.get("in_features") == CD and same(lkw.get("out_features"), DIM)
+        ok = none_ok and shapes_ok and lin_ok
+        why = (f"test {show(test, 60)}, AdditiveCondition(shape={show(akw.get('shape'), 40) if akw.get('shape') else None}, "
+               f"cond_shape={show(akw.get('cond_shape'), 40) if akw.get('cond_shape') else None}), "
+               f"Linear({show(lkw.get('in_features'), 30) if lkw.get('in_features') else None}, "
+               f"{show(lkw.get('out_features'), 40) if lkw.get('out_features') else None})")
+        break
+    rep.check(ok, R, site, "triangular_spline_flow",
+              "bijections + [AdditiveCondition(Linear(cond_dim, dim), (dim,), (cond_dim,))] iff cond_dim is not None", why)
+
+
+def rule_factory_inverter(prog, rep, R="C01.factory-inverter"):
+    """'...or the configured search tolerance for numerically inverted bijections': the inverter a caller configures is
+    the one the network inverts with."""
+    from ..terms import walk
+    rep.rule(R, "block_neural_autoregressive_flow hands its inverter to every BlockAutoregressiveNetwork, whose "
+                "constructor stores it (the default AutoregressiveBisectionInverter() only when None)", minimum=2)
+    q = LAYER_CLASSES["block_neural_autoregressive_flow"]
+    try:
+        m, fn, t = factory_term(prog, "block_neural_autoregressive_flow")
+    except KeyError:
+        rep.undecided(R, "flowjax/flows.py", "block_neural_autoregressive_flow", "factory vanished")
+        return
+    calls = [x for x in walk(t) if x[0] == "call" and x[1] == ("ext", q)]
+    kw = dict(calls[0][3]) if calls else {}
+    rep.check(kw.get("inverter") == ("sym", "INVERTER"), R, f"{m.relpath}:{fn.lineno}", "block_neural_autoregressive_flow",
+              "BlockAutoregressiveNetwork(..., inverter=inverter)",
+              f"the network receives inverter={show(kw['inverter'], 80) if 'inverter' in kw else 'nothing (its default)'}: a "
+              f"configured tolerance / interval is ignored")
+    c = prog.cls(q)
+    from ..refs import eval_ref_method
+    from .c07 import compare
+    params = ["key", "dim", "cond_dim", "depth", "block_dim", "activation", "inverter"]
+    try:
+        f = Interp(prog).eval_init(c, [("sym", "KEY")], {p_: ("sym", p_.upper()) for p_ in params[1:]})
+        got = f.get("inverter", ("unknown", "inverter not stored"))
+    except Exception as e:  # noqa: BLE001
+        got = ("unknown", str(e)[:120])
+    INV = ("sym", "INVERTER")
+    want = ("ite", ("cmp", "is", INV, ("const", None)),
+            ("call", ("ext", "flowjax.bisection_search.AutoregressiveBisectionInverter"), (), ()), INV)
+    from .bij import method_site
+    compare(rep, R, method_site(prog, c, "__init__"), "BlockAutoregressiveNetwork.inverter", got, want, "stored inverter")
 
 
 FLOW_WRAPPERS = ["flowjax.bijections.utils.Invert", "flowjax.bijections.jax_transforms.Scan",
